@@ -677,7 +677,7 @@ def rand_mutator(rng, nregs: int, profile: str) -> list:
     if r < 0.44:
         return ["add_style", i, rng.choice(STYLES), rng.random() < 0.3]
     if r < 0.50:
-        return ["attrs", i] if rng.random() < 0.5 else ["render", i]
+        return rng.choice([["attrs", i], ["render", i], ["deps", i, False], ["deps", i, True]])
     if r < 0.60:
         return ["set", i, rng.choice(PROG_KEYS), rand_value(rng)]
     if r < 0.70:
